@@ -29,7 +29,7 @@ def depth_verdict(tmpls):
     d = 0
     for t in tmpls:
         for it in TEMPLATES[t]:
-            if it in ('S', 'B', 'M'):
+            if it in ('S', 'B', 'M', 'L'):
                 d += 1
             elif it in ('E', 'W', 'X'):
                 d -= 1
